@@ -55,6 +55,10 @@ def stepCodec (p : CodecProg) (toks : List String) : CodecProg × String :=
   | ["tkey", ns] => (p, match ns.toInt? with
     | some ns => hx (timeKey Posmint.Generated.unstakingValidatorsKey ns)
     | none => "bad-op")
+  -- the same instant in another time zone: the key is a function of the instant alone
+  | ["tkeyz", ns, _] => (p, match ns.toInt? with
+    | some ns => hx (timeKey Posmint.Generated.unstakingValidatorsKey ns)
+    | none => "bad-op")
   | ["hexaddr", h] => (p, match unhex h with
     | some b => (match hexDecode (hexEncode b) with | some b' => String.ofList ((hexEncode b).map Char.ofNat) ++ " " ++ hx b' | none => "err")
     | none => "bad-op")
